@@ -158,6 +158,8 @@ def all_bases(tier: str):
     refs = [
         ("copy-2f-foldercrc-packcrc", {"folders": [[0], [1, 2]], "chains": [C, C], "crc": "folder", "pack_crc": True, "numunpack_omit": False}, None),
         ("lzma2-2f-lzmahdr", {"folders": [[0, 1], [2]], "chains": [Z, Z], "header": "lzma", "crc": "substream"}, None),
+        # packed-stream CRCs defined for some streams only: test() can vouch for those, not for the archive
+        ("copy-2f-packcrc-partial", {"folders": [[0], [1, 2]], "chains": [C, C], "crc": "substream", "pack_crc": "partial"}, None),
         # several NATIVE coders in one folder (py7zr decodes them with a single liblzma chain) and folder-level CRCs only
         ("delta-lzma2-2f-foldercrc", {"folders": [[0], [1, 2]], "chains": [[("DELTA", {}), ("LZMA2", {})]] * 2, "crc": "folder"}, None),
         # the ciphertext is the only transformation and a folder-level CRC the only integrity data
